@@ -168,7 +168,7 @@ func VerifC38EpochTicks() {
 		}
 		vrt.Assert(len(*calls) == before+1, "an alphabet node asks for the next epoch once per tick")
 		c := (*calls)[before]
-		vrt.Assert(c.Kind == "notary-alpha" && c.Contract == c38contract && c.Method == "newEpoch", "the tick is an alphabet notary call of Netmap.newEpoch")
+		vrt.Assert(c.Contract == c38contract && c.Method == "newEpoch", "the tick is a call of Netmap.newEpoch")
 		e, ok := c.Args[0].(uint64)
 		vrt.Assert(len(c.Args) == 1 && ok && e == cur+1, "the epoch asked for is exactly the current epoch + 1")
 		vrt.Reach("ticked")
